@@ -81,6 +81,24 @@ def run(tier="quick", seed=0, replay=None):
                 else:
                     reqs.append({"op": "sw", "k": k, "vs": [rs(v) for v in vs]})
                     impls.append((desc, steps))
+    # sparse read patterns: statistics are read only every k-th or 2k-th update (a cache keyed on the write position would repeat)
+    for k in range(2, (5 if quick else 8) + 1):
+        for every in (k, 2 * k, k + 1):
+            for rep in range(2 if quick else 6):
+                vs = [float(chk.rng.choice([0, 1])) for _ in range(6 * k)]
+                t = SlidingWindowTracker(k)
+                chk.case({"k": k, "read_every": every, "vs": vs}, nontrivial=True, sample=False)
+                for i, v in enumerate(vs):
+                    t.update(v)
+                    if (i + 1) % every == 0:
+                        last = vs[max(0, i + 1 - k):i + 1]
+                        m = sum(last) / len(last)
+                        var = sum((x - m) ** 2 for x in last) / len(last)
+                        if not (close(t.mean, m) and close(t.var, var) and close(t.std, math.sqrt(var))):
+                            chk.violation("window-sparse-reads", f"SlidingWindowTracker({k}) read every {every} updates on {vs[:i + 1]}: after {i + 1} updates "
+                                          f"mean/var/std = {t.mean}/{t.var}/{t.std}, the last {len(last)} values have {m}/{var}/{math.sqrt(var)}",
+                                          {"k": k, "vs": [str(x) for x in vs[:i + 1]], "read_every": every})
+                            break
     if core.driver_available():
         try:
             answers = core.run_driver(reqs)
